@@ -168,8 +168,139 @@ func (lc *lifecycle) modelOpen() (open bool, determinate bool) {
 	return true, true
 }
 
+// natsLifecycle: the stateless NATS client transport's life cycle (the other
+// client transport named by C15's anchors): Open/Close/IsOpen/Closed() and
+// Request around closes, including the broker dropping the connection.
+func natsLifecycle(rc *RunCtx) {
+	tp := rc.Tape
+	s := rc.NewSim(30000, 10*time.Minute)
+	rc.Nontrivial = true
+	rc.Sample["transport"] = "nats"
+	b := NewSimBroker(rc)
+	evN := 0
+	b.OnPublish = func(c *BrokerConn, subject, reply string, hdr, data []byte) bool {
+		if subject != "svc" {
+			return false
+		}
+		f, err := DecodeFrame(data)
+		if err != nil {
+			return true
+		}
+		evN++
+		body := EncodeFrame(map[string]string{"_opid": f.Headers["_opid"], "tag": f.Headers["tag"]}, []byte("resp"))
+		s.AddEvent(fmt.Sprintf("peer:%03d:answer", evN), 0, func() { b.Route(reply, "", nil, body) })
+		return true
+	}
+	finished := false
+	var opLog []string
+	typeID := func(err error) int {
+		if te, ok := err.(thrift.TTransportException); ok {
+			return te.TypeId()
+		}
+		return -1
+	}
+	s.GoRoot("user", "user", func() {
+		nc, err := b.Connect("client")
+		if err != nil {
+			rc.Violate("INFRA", "connect", "nats", err.Error())
+			finished = true
+			return
+		}
+		tr := frugal.NewFNatsTransport(nc, "svc", "_INBOX.lc")
+		open, dropped := false, false
+		var closedCh <-chan error
+		n := 3 + tp.Intn("ops", rc.Scale(10, 24))
+		reqN := 0
+		for i := 0; i < n; i++ {
+			settle(time.Millisecond)
+			switch tp.Intn("ops", 6) {
+			case 0:
+				err := tr.Open()
+				opLog = append(opLog, fmt.Sprintf("open->%v", err))
+				switch {
+				case dropped:
+					if err == nil {
+						rc.Violate("C15", "nats-open-on-dead-connection", "nats", "Open succeeded although the NATS connection is closed")
+					}
+				case open && typeID(err) != thrift.ALREADY_OPEN:
+					rc.Violate("C15", "open-on-open-not-reported", "nats", fmt.Sprintf("Open on an open NATS transport returned %v", err))
+				case !open && err != nil:
+					rc.Violate("C15", "open-on-closed-failed", "nats", fmt.Sprintf("Open on a closed NATS transport returned %v", err))
+				}
+				if !open && err == nil {
+					open = true
+					closedCh = tr.Closed()
+				}
+			case 1:
+				err := tr.Close()
+				opLog = append(opLog, fmt.Sprintf("close->%v", err))
+				if err != nil && !dropped {
+					rc.Violate("C15", "nats-close-failed", "nats", fmt.Sprintf("Close returned %v (open=%v)", err, open))
+				}
+				if open && err == nil {
+					open = false
+					settle(time.Millisecond)
+					select {
+					case c, ok := <-closedCh:
+						if !ok || c != nil {
+							rc.Violate("C15", "close-cause-count", "nats", fmt.Sprintf("after a clean Close, Closed() yielded (%v, open=%v)", c, ok))
+						}
+					default:
+						rc.Violate("C15", "close-cause-count", "nats", "after Close, Closed() yielded nothing")
+					}
+				}
+			case 2:
+				got := tr.IsOpen()
+				opLog = append(opLog, fmt.Sprintf("isopen->%v", got))
+				if got != (open && !dropped) {
+					rc.Violate("C15", "isopen-inconsistent", "nats", fmt.Sprintf("IsOpen()=%v, expected %v (dropped=%v); ops %v", got, open && !dropped, dropped, opLog))
+				}
+			case 3, 4:
+				reqN++
+				ctx := frugal.NewFContext("lc")
+				ctx.SetTimeout(200 * time.Millisecond)
+				h := ctx.RequestHeaders()
+				h["tag"] = fmt.Sprintf("q%d", reqN)
+				_, err := tr.Request(ctx, EncodeFrame(h, []byte("req")))
+				opLog = append(opLog, fmt.Sprintf("request->%v", err))
+				if open && !dropped && err != nil {
+					rc.Violate("C15", "request-on-open-transport-failed", "nats", fmt.Sprintf("%v; ops %v", err, opLog))
+				}
+				if (!open || dropped) && typeID(err) != thrift.NOT_OPEN {
+					rc.Violate("C15", "request-on-closed-not-reported", "nats", fmt.Sprintf("Request on a closed NATS transport returned %v", err))
+				}
+			case 5:
+				if !dropped && tp.Intn("ops", 3) == 0 {
+					// the broker goes away: the client connection closes (no reconnect configured)
+					rc.Fault("nats-connection-closed")
+					dropped = true
+					nc.Close()
+					opLog = append(opLog, "connection-closed")
+				}
+			}
+		}
+		if open && !dropped {
+			tr.Close()
+		}
+		finished = true
+	})
+	s.Run(func() bool { return finished && b.Pending() == 0 })
+	rc.Sample["ops"] = opLog
+	if !finished {
+		rc.Violate("C15", "user-op-never-returned", "nats", fmt.Sprintf("ops %v", opLog))
+	}
+	s.Shutdown()
+	b.Kill()
+}
+
 func lifecycleHarness(rc *RunCtx) {
 	tp := rc.Tape
+	if rc.Params["enum"] != "1" || int(rc.Seed&0xffffffff)%9 == 8 {
+		if rc.Params["transport"] == "nats" || int(rc.Seed&0xffffffff)%9 == 8 {
+			natsLifecycle(rc)
+			return
+		}
+	}
 	s := rc.NewSim(rc.Scale(20000, 60000), 30*time.Minute)
 	lc := &lifecycle{rc: rc, s: s, inbound: lcInbound(), enumPoint: -1}
 	st := NewSimStream(rc, "c0")
